@@ -95,6 +95,9 @@ def gen_op(r: random.Random, model: A.Model, *, scoped_bias=0.15, failing_bias=0
             if op == "rm":
                 cls = "missing"
     force = ()
+    if r.random() < 0.08 and not any(N.needs_quotes(n) for n in S):
+        # the other spelling of the same name: `"a"` for `a` (must address the same binding)
+        force = (r.randrange(len(S)),)
     return op, enc(S, depth, force), value, cls + (f"@{depth}" if depth else "")
 
 
